@@ -1,4 +1,5 @@
 import Autog.Model.Pipeline
+import Autog.Lemmas.BreakFuel
 import Autog.Lemmas.DfsHasCycles
 import Autog.Lemmas.GreedyAssignedOnce
 import Autog.Lemmas.NsInitLayersKahn
@@ -259,5 +260,23 @@ theorem C01_upto_tight_tree_any_input (cfg : Cfg) (es : InEdges) (hne : es ≠ [
   have hA := adjL_preProcess cfg es cs hcs c hc
   exact ⟨C01_phase1_first_test_total c.1 hA, C01_phase1_dfs_then_test_total c.1 hA,
     fun alg g' h => C01_after_phase1_walks_total alg c.1 g' hA h⟩
+
+
+/-- C01, `breakLongEdges` (the index loop over the growing edge list): on every state whose listed edges lie in the edge store, end in
+    the node store, never point upwards by more than one layer and span at most `layers.size + 2` layers — what either layerer hands
+    over — the loop ends within the model's fuel: each cut lowers the total remaining span by one (`breakEdge_step`) -/
+theorem C01_breakLongEdges_total : type_of% @breakLongEdges_total := @breakLongEdges_total
+theorem C01_breakLongEdges_total_of_contract : type_of% @breakLongEdges_total_of_contract := @breakLongEdges_total_of_contract
+
+/-- a two-node state with one edge spanning three layers: the hypotheses of `C01_breakLongEdges_total` are satisfiable, and the loop
+    cuts the edge twice -/
+def exLong : G :=
+  { nodes := #[{ id := "a", outs := [0], layer := 0 }, { id := "b", ins := [0], layer := 3 }],
+    edges := #[{ src := 0, dst := 1 }], elist := [0],
+    layers := #[{ index := 0, nodes := [0] }, { index := 1, nodes := [] }, { index := 2, nodes := [] }, { index := 3, nodes := [1] }] }
+
+example : BreakWF exLong := ⟨by decide, by decide, by decide⟩
+example : (match breakLongEdges exLong with | .ok g => g.elist.length == 3 && g.nodes.size == 4 | .error _ => false) = true := by
+  decide +kernel
 
 end Autog
